@@ -1,5 +1,6 @@
 import L21.Props.C04
 import L21.Props.C04D
+import L21.Props.C04L
 import L21.Props.C05RT
 import L21.Props.C11
 #print axioms L21.LefEnum.c04_enum_strings_canonical
@@ -13,3 +14,6 @@ import L21.Props.C11
 #print axioms L21.Lef.c04_decimal_every_spelling
 #print axioms L21.Lef.c04_trailing_zeros
 #print axioms L21.Lef.c04_leading_zeros
+#print axioms L21.Lef.c04_layout_tokens
+#print axioms L21.Lef.c04_layout_independent
+#print axioms L21.Lef.c04_parse_layout
